@@ -1,4 +1,5 @@
 pub mod c01;
+pub mod c02;
 pub mod c05;
 pub mod c06;
 pub mod c07;
@@ -182,6 +183,7 @@ macro_rules! dispatch {
 
 dispatch! {
     "c01" => c01, "C01";
+    "c02" => c02, "C02";
     "c05" => c05, "C05";
     "c06" => c06, "C06";
     "c07" => c07, "C07";
